@@ -648,7 +648,7 @@ class C06(Check):
                     ("SelectHub", "_cycle"), ("SelectHub", "registerTimer"), ("SelectHub", "_return"), ("Timer", "__init__"), ("Timer", "start"),
                     ("Timer", "cancel"), ("Timer", "run")]
     anchors = []
-    coverage_cases = 2500
+    coverage_cases = 1500
     trusted_base = ["model Model/Recoco.lean hand-written from recoco.py (Scheduler.cycle/run, BaseTask.execute, SelectHub._select, "
                     "Sleep/Select/Recv/Send/Exit/Again/AgainTask/Timer); tied to the code by this correspondence run only",
                     "harness: virtual clock, virtual select (same definition as the model's vselect), scripted sockets, instrumented task bodies",
@@ -724,7 +724,7 @@ class C06(Check):
                      {"write": [], "drain": [0], "rl": [0, 1], "wl": []}, {"write": [1], "drain": [], "rl": [1], "wl": [0, 1]}]})
         cases += list(scope(CORE, 2, 2))                                         # 111^2
         cases += list(scope([a for a in ALPHA if a not in DROP], 3, 1, label="scope3x1"))     # 21^3 (all 26^3 in the thorough tier)
-        for alpha in ([NUM0, SLEEP4], [NUM0, ["again", -1, True]], [SEL_R0, RAISE]):
+        for alpha in ([NUM0, SLEEP4], [SEL_R0, ["again", -1, True]]):
             cases += list(scope(alpha, 3, 3, label="scope3x3"))                  # 15^3 each
         # threaded select hub (forced thread scheduler)
         cases += list(thr_hand_cases())
@@ -735,12 +735,12 @@ class C06(Check):
         return cases
 
     def generate(self, rng, tier):
-        n = 2500 if tier == "quick" else 30000
+        n = 2500 if tier == "quick" else 20000
         for _ in range(n):
             yield rand_case(rng)
         for _ in range(40 if tier == "quick" else 400):
             yield epoll_case(rng)
-        for _ in range(150 if tier == "quick" else 2500):
+        for _ in range(150 if tier == "quick" else 1800):
             yield rand_thr_case(rng)
         if tier == "thorough":
             for i, c in enumerate(scope(TH_C, 3, 2, timers=[[8, False, True, None]], label="thr-scope3x2-wide")):   # 13^3, two schedules each
@@ -749,6 +749,8 @@ class C06(Check):
             for c in scope([a for a in ALPHA if a not in DROP], 2, 2, label="scope2x2-wide"):      # 421^2
                 yield c
             for c in scope(ALPHA, 3, 1, label="scope3x1-full"):                  # 26^3
+                yield c
+            for c in scope([NUM0, RAISE], 3, 3, label="scope3x3"):               # 15^3
                 yield c
             for _ in range(2):                                                   # all 3 tasks x <=3 yields over random 3-symbol alphabets
                 alpha = rng.sample(ALPHA, 3)
